@@ -40,6 +40,12 @@ CHECKS = {
  "C03": dict(cat="fault_enumeration", tech="exhaustive enumeration of fault position x fault kind x timing configuration, each combined with deviation-bounded exploration of latencies/placement on the real code in virtual time; exact virtual-time oracle", ref="DESIGN §5 C03",
    note="Fault begins at heartbeat attempt 1..5; nine fault kinds; K1,K2,K3 (K3 exercises the H/2 time-out); d<=1 quick (K3: default schedule), d<=2 thorough; single leader; the reference store returns the real NATS error values so the string classification is exercised as in production.",
    text="For record replaced/deleted/expired: the instance has stopped claiming and OnDemote has run by the completion (answer or time-out) of the first refresh the store evaluates after the change, and within H+2T; for unreachable-store kinds (three NATS error values, hang, lost acknowledgements, partition): by the completion of the third consecutive failed attempt and within 3H+3T of the start of the last successful refresh. Times are exact virtual times."),
+ "C04": dict(cat="exploration", tech="finite product of payload alphabet x caller state x method x context, each combined with deviation-bounded exploration of the order of the validation read against racing writes on the real code", ref="DESIGN §5 C04",
+   note="50 record shapes (every branch of validateToken), 4 caller states, 2 methods, 4 context variants; d<=1 (quick: on the leader/background+deadline cases, default schedule elsewhere; thorough: everywhere, d=2 on the racing cases). The harness applies the read itself, so the record at its linearisation point is known exactly. Byte strings outside the alphabet are not decided.",
+   text="Whenever ValidateToken / ValidateTokenOrDemote returns true, a validation read applied during the call saw a live record whose JSON id is the caller and whose token is the token the caller held at the call; read errors, hangs past the deadline, cancelled contexts and every malformed shape give false; after a false ValidateTokenOrDemote the instance no longer leads and OnDemote has run if it led at the call; no payload crashes, spins or wedges the instance."),
+ "C06": dict(cat="fault_enumeration", tech="enumeration of leader-removal points (script item moved to every choice point), watch-event loss subsets and transient candidate faults, on the real code in virtual time; exact vacancy instants from the reference store log", ref="DESIGN §5 C06",
+   note="N in {2,3}; K1,K2; removal by stop(+/-DeleteKey), crash, permanent partition, outside delete; presets deliver-all/drop-all plus per-event drops up to d; candidate Watch/Get/Create failures up to d consecutive; the bound is 600ms plus latencies actually injected into the candidates' operations (an upper bound).",
+   text="Every vacancy instant (tombstone applied or write time + TTL) during which a started, non-stopped, connected instance exists is followed by an acquisition within 600ms + injected latency, also when no watch notification is delivered, after Watch/Get/Create failures, and after the candidate's watch was lost; a run never ends with an older vacancy."),
 }
 NA_DEFAULT = "check not built yet in this round (planned in DESIGN.md §9a); not claimed until it runs alarm-free"
 
